@@ -300,6 +300,23 @@ func c15d(c *Ctx) {
 		}
 		c.Check(d.ok, key+"/exported-format", pos, "'::' format belongs to a scope-checked label site", "a label is exported ('::' in format "+q(d.ws.format)+") outside the scope-checked sites")
 	}
+	// (1') the emitter renders the label nodes the parser made: it builds none of its own (a
+	// re-created label would have to copy the export flag, and a dropped flag is silent)
+	{
+		n := 0
+		for _, fn := range c.W.FuncsOf("emitter") {
+			if isTestFunc(c.W, fn) {
+				continue
+			}
+			for _, a := range allocsOf(fn, "ast", "LabelStatement") {
+				n++
+				c.Bad(c.W.FuncKey(fn)+"/label-node-built-in-emitter", c.W.Pos(a.Pos()), "the emitter builds an ast.LabelStatement of its own: a label's scope (IsGlobal) is what the parser recorded, and a rebuilt node renders with whatever the emitter copied")
+			}
+		}
+		if n == 0 {
+			c.OK("emitter/no-label-nodes", "-", "the emitter creates no label nodes")
+		}
+	}
 	// (2) table labels are local
 	if fn := c.Fn("emitter.Emitter.emitMapScriptStatement"); fn != nil {
 		found := false
